@@ -56,4 +56,6 @@ def main : IO Unit := do
     loop h out () Serial.driverStep ()
   | some (.list [.atom "model", .atom "repr"]) =>
     loop h out ({} : Repr.World Unit) Repr.driverStep {}
+  | some (.list [.atom "model", .atom "conv"]) =>
+    loop h out ({} : Conv.DState) Conv.driverStep {}
   | _ => out.putStrLn "unknown-model"
